@@ -111,11 +111,14 @@ impl Prop for C10 {
                 },
             )
         };
-        let files = if ch.chance(1, 3) {
+        let mut files = if ch.chance(1, 3) {
             gen::split_include(&lines, ch, 3)
         } else {
             vec![("main.s".to_string(), lines)]
         };
+        if files.len() > 1 && ch.chance(1, 2) {
+            gen::place_in_dirs(&mut files, ch, true);
+        }
         Some(Case {
             files,
             info,
